@@ -113,6 +113,43 @@ ALIAS_EXCEPT = {
 ALIAS_CALLER_CLEARS = {
     ("threads_end", "coder->threads"): ("threads", "stream_encoder_mt.c"),
 }
+# members that describe the freed array (element count): they must be reset by every caller as well, before it can return
+ALIAS_CALLER_CLEARS_ALSO = {
+    ("threads_end", "coder->threads"): ("threads_initialized",),
+}
+
+
+_as_memo = {}
+
+
+def _always_stored(prog, caller, c):
+    """Members (names) that the same-file callee of call c stores on every path from its entry to its exit."""
+    nm = c.get("fn")
+    if not nm:
+        return set()
+    out = set()
+    for g in prog.functions.get(nm, []):
+        if g.file != caller.file or not g.blocks:
+            continue
+        k = g.key
+        if k not in _as_memo:
+            flds = {}
+            for b, i, e in g.iter_elems():
+                for (l, r, op, node) in ex.writes(e):
+                    ls = ex.strip(l)
+                    if ls is not None and ls.get("k") == "mem" and op == "=":
+                        flds.setdefault(ls["f"], set()).add(b.id)
+            always = set()
+            for fld, blocks in flds.items():
+                def via(bb, ii, ee, fld=fld):
+                    return any(ex.strip(l) is not None and ex.strip(l).get("k") == "mem" and ex.strip(l)["f"] == fld
+                               and op == "=" for (l, r, op, node) in ex.writes(ee))
+                ok, _p = cfg.must_pass(g, [g.entry], [g.exit], via)
+                if ok:
+                    always.add(fld)
+            _as_memo[k] = always
+        out |= _as_memo[k]
+    return out
 
 
 def check_alias(ck, prog):
@@ -120,13 +157,13 @@ def check_alias(ck, prog):
             "(or its holder freed) before the function returns")
     nsites = 0
     for f in sorted(prog.all_functions("liblzma"), key=lambda f: (f.file, f.line)):
-        has_free = any(c.get("fn") == "lzma_free" for b, i, e in f.iter_elems()
+        has_free = any(c.get("fn") in own.FREE for b, i, e in f.iter_elems()
                        for c in ex.calls(e, into_refs=False))
         if not has_free:
             continue
         nsites += 1
         ck.saw_function(f)
-        res = own.freed_alias(f)
+        res = own.freed_alias(f, call_clears=lambda c, f=f: _always_stored(prog, f, c))
         if not res:
             ck.ob("C10-ALIAS", f.name, True, common.where(f), "no dangling persistent pointer at any return")
             continue
@@ -143,6 +180,11 @@ def check_alias(ck, prog):
                 ck.ob("C10-ALIAS", "%s:%s" % (f.name, pt), okc, common.where(f, fl),
                       "%s leaves %s dangling; %s" % (f.name, pt, whyc),
                       key="ALIAS:%s:%s" % (f.name, pt))
+                for extra in ALIAS_CALLER_CLEARS_ALSO.get((f.name, pt), ()):
+                    oke, whye = _callers_clear(prog, f, extra)
+                    ck.ob("C10-ALIAS", "%s:%s+%s" % (f.name, pt, extra), oke, common.where(f, fl),
+                          "%s frees %s whose element count is coder->%s; %s" % (f.name, pt, extra, whye),
+                          key="ALIAS:%s:%s:%s" % (f.name, pt, extra))
                 continue
             ck.ob("C10-ALIAS", "%s:%s" % (f.name, pt), exc is not None, common.where(f, fl),
                   ("exception: " + exc) if exc else
